@@ -41,14 +41,14 @@ def main():
     except C.Inconclusive as e:
         rep.inconcl(e)
         print(f"INCONCLUSIVE property={pid} harness: {str(e)[:2000]}")
-        rep.finish()
+        rep.finish(harness_failed=True)
         return 2
     except Exception:
         # a crash of the harness is never a verdict about the code
         traceback.print_exc()
         print(f"INCONCLUSIVE property={pid} harness crashed (see traceback)")
         rep.inconcl("harness crash")
-        rep.finish()
+        rep.finish(harness_failed=True)
         return 2
     return rep.finish(floor=getattr(mod, "FLOOR", {}).get(tier, 1))
 
